@@ -78,6 +78,8 @@ pub fn kernel_oracle(rootfd: i32, c: &LCase) -> Want {
 
 pub fn got_of(o: &Obs) -> Want {
     if let Some(p) = &o.panic { return Want::Text(format!("PANIC {}", p)); }
+    // an O_TMPFILE open that succeeds yields a brand-new unnamed inode each time: identity says nothing, the outcome is "created one"
+    if o.ok && o.fd.as_ref().map(|f| f.nlink == 0 && f.mode & libc::S_IFMT == libc::S_IFREG).unwrap_or(false) { return Want::Text("ok(unnamed file created)".into()); }
     if !o.ok { return Want::Err(o.errno.unwrap_or(-1)); }
     if let Some(fd) = &o.fd { return Want::Obj { dev: fd.dev, ino: fd.ino, getfl: fd.getfl & GETFL_MASK }; }
     Want::Text(o.text.clone().unwrap_or_default())
@@ -197,6 +199,12 @@ pub fn run_item(prop: &str, tier: &str, idx: usize, only: Option<&Value>) -> MRe
             for p in ["a\0zzz/x", "a\0", "\0", "a/\0b", "x\0/../a"] {
                 cases.extend(lookup_ops(p, &flagsets[..2.min(flagsets.len())], &[0], false));
             }
+            // O_TMPFILE is a flag set openat2 accepts: whatever a one-shot open does with it must not depend on the backend
+            for p in [".", "a", "b", "a/a", "x", "a/"] {
+                for f in [O_TMPFILE | O_RDWR, O_TMPFILE | O_WRONLY, (O_TMPFILE & !O_DIRECTORY) | O_RDWR] {
+                    cases.push(LCase { op: Op::new("open_subpath").root(ROOT_IN).path(p).flags(f), nofollow: false });
+                }
+            }
             // the same lookups through a Root that wraps a caller-supplied O_RDONLY descriptor, for the paths that end on the root
             for p in ["..", "../..", "a/..", ".", "/", "b/../..", "a/../../b"] {
                 for mut c in lookup_ops(p, &flagsets[..2.min(flagsets.len())], &[0], false) { c.op.root = Some(format!("rdonly:{}", ROOT_IN)); cases.push(c); }
@@ -290,7 +298,8 @@ pub fn run_item(prop: &str, tier: &str, idx: usize, only: Option<&Value>) -> MRe
                 }
                 // (3) containment, independent of kernel and model
                 if let Some(fd) = &obs.fd {
-                    if !inside.contains(&(fd.dev, fd.ino)) {
+                    // (an unnamed file an O_TMPFILE open created is nobody's entry; whether such an open may succeed at all is C04's question)
+                    if !inside.contains(&(fd.dev, fd.ino)) && !(fd.nlink == 0 && fd.mode & libc::S_IFMT == libc::S_IFREG) {
                         res.violate(format!("{}:{}:escape", bk, c.op.name), format!("ESCAPE: tree [{}] {} returned an object outside the root ({:?})", tree.text(), c.op.brief(), fd.procpath), replay.clone());
                         continue;
                     }
@@ -324,8 +333,9 @@ pub fn run_item(prop: &str, tier: &str, idx: usize, only: Option<&Value>) -> MRe
                 // a divergence must be stable: transient kernel answers under machine load (EAGAIN storms, ELOOP from restarted walks
                 // just below the link limit) are excluded by running the single case again on both backends
                 let mut tries = 0;
-                while (gk != ge || !same_kind) && tries < 4 {
-                    tries += 1;
+                let mut total = 0;
+                while (gk != ge || !same_kind) && tries < 4 && total < 12 {
+                    tries += 1; total += 1;
                     ko[i] = k.one(c.op.clone())?;
                     eo[i] = e.one(c.op.clone())?;
                     let (k2, e2) = (got_of(&ko[i]), got_of(&eo[i]));
